@@ -54,6 +54,8 @@ const MAPPING_FILES: [&str; 2] = ["compio-fs/src/file.rs", "compio-runtime/src/f
 
 const OPEN_FILE: &str = "compio-fs/src/open_options/unix.rs";
 
+const UTILS_FILE: &str = "compio-fs/src/utils/mod.rs";
+
 #[derive(Clone, Copy, PartialEq, Eq, PartialOrd, Ord, Debug)]
 enum Kind {
     Init,
@@ -988,6 +990,106 @@ fn gen_open_flags(repo: &Path, s: &mut String) -> Res<()> {
 }
 
 // ---------------------------------------------------------------------------------------------
+// DirBuilder::create_dir_all: the decision arms around the two mkdir attempts
+// ---------------------------------------------------------------------------------------------
+
+fn errno_of_kind(k: &str) -> Res<u32> {
+    Ok(match k {
+        "NotFound" => 2,
+        "AlreadyExists" => 17,
+        other => return Err(format!("create_dir_all: unsupported io::ErrorKind::{other}")),
+    })
+}
+
+/// one `match self.inner.create(path).await { .. }`: arms as Lean `Arm` literals
+fn dir_arms(m: &syn::ExprMatch) -> Res<Vec<String>> {
+    if nospace(&m.expr) != "self.inner.create(path).await" {
+        return Err(format!("create_dir_all: unexpected scrutinee {}", nospace(&m.expr)));
+    }
+    let mut out = vec![];
+    for arm in &m.arms {
+        let pat = nospace(&arm.pat);
+        let on_ok = match pat.as_str() {
+            "Ok(())" => true,
+            "Err(_)" | "Err(e)" | "Err(refe)" => false,
+            other => return Err(format!("create_dir_all: unsupported pattern {other}")),
+        };
+        let guard = match &arm.guard {
+            None => "Guard.always".to_string(),
+            Some((_, g)) => {
+                let t = nospace(g);
+                if let Some(k) = t.strip_prefix("e.kind()==io::ErrorKind::") {
+                    format!("Guard.kindEq {}", errno_of_kind(k)?)
+                } else if t == "metadata(path).await.map(|m|m.is_dir()).unwrap_or_default()" {
+                    "Guard.recheckIsDir".to_string()
+                } else {
+                    return Err(format!("create_dir_all: unsupported guard `{t}`"));
+                }
+            }
+        };
+        if on_ok && arm.guard.is_some() {
+            return Err("create_dir_all: guard on the Ok arm".into());
+        }
+        let body = nospace(&arm.body);
+        let act = match (on_ok, body.as_str()) {
+            (true, "returnOk(())") | (true, "Ok(())") => "Act.retOk",
+            (false, "returnOk(())") | (false, "Ok(())") => "Act.retOk",
+            (false, "{}") => "Act.fall",
+            (false, "returnErr(e)") | (false, "Err(e)") => "Act.retErr",
+            (_, other) => return Err(format!("create_dir_all: unsupported arm body `{other}`")),
+        };
+        if act == "Act.retErr" && pat != "Err(e)" {
+            return Err("create_dir_all: error arm does not bind the error it returns".into());
+        }
+        out.push(format!("⟨{on_ok}, {guard}, {act}⟩"));
+    }
+    Ok(out)
+}
+
+fn gen_dir_builder(repo: &Path, s: &mut String) -> Res<()> {
+    let file = parse_file(&repo.join(UTILS_FILE))?;
+    let mut f = None;
+    for it in &file.items {
+        let syn::Item::Impl(im) = it else { continue };
+        if nospace(&im.self_ty) != "DirBuilder" || im.trait_.is_some() {
+            continue;
+        }
+        for ii in &im.items {
+            if let syn::ImplItem::Fn(x) = ii {
+                if x.sig.ident == "create_dir_all" {
+                    f = Some(x.clone());
+                }
+            }
+        }
+    }
+    let f = f.ok_or("DirBuilder::create_dir_all not found")?;
+    let st = &f.block.stmts;
+    if st.len() != 4 {
+        return Err(format!("create_dir_all: expected 4 statements, found {}", st.len()));
+    }
+    if nospace(&st[0]) != "ifpath==Path::new(\"\"){returnOk(());}" {
+        return Err(format!("create_dir_all: unexpected first statement `{}`", nospace(&st[0])));
+    }
+    let syn::Stmt::Expr(syn::Expr::Match(m1), _) = &st[1] else { return Err("create_dir_all: statement 2 is not a match".into()) };
+    let expected_parent = "matchpath.parent(){Some(p)=>Box::pin(self.create_dir_all(p)).await?,None=>{returnErr(io::Error::other(\"failedtocreatewholetree\"));}}";
+    if nospace(&st[2]) != expected_parent {
+        return Err(format!("create_dir_all: unexpected parent step `{}`", nospace(&st[2])));
+    }
+    let syn::Stmt::Expr(syn::Expr::Match(m2), None) = &st[3] else { return Err("create_dir_all: the tail is not a match".into()) };
+    let a1 = dir_arms(m1)?;
+    let a2 = dir_arms(m2)?;
+    s.push_str("\nnamespace Compio.Gen.DirBuilder\n\n");
+    s.push_str("/-- guard of an error arm: none, `e.kind() == io::ErrorKind::..` (as errno), or the re-check\n    `metadata(path).await.map(|m| m.is_dir()).unwrap_or_default()` -/\ninductive Guard where\n  | always | kindEq (errno : Nat) | recheckIsDir\n  deriving DecidableEq, Repr\n\n");
+    s.push_str("/-- what the arm does: return `Ok(())`, return the error, or fall through to the next step -/\ninductive Act where\n  | retOk | retErr | fall\n  deriving DecidableEq, Repr\n\n");
+    s.push_str("structure Arm where\n  /-- matches `Ok(())` (else an `Err`) -/\n  onOk : Bool\n  guard : Guard\n  act : Act\n  deriving DecidableEq, Repr\n\n");
+    s.push_str("/-- `DirBuilder::create_dir_all`: `if path == \"\" {return Ok(())}`; FIRST `match self.inner.create(path).await`\n    (these arms); then `create_dir_all(parent)?` (no parent: `Err(other)`); then the SECOND match (below) -/\n");
+    writeln!(s, "def firstAttempt : List Arm := [\n  {}\n]\n", a1.join(",\n  ")).unwrap();
+    writeln!(s, "def secondAttempt : List Arm := [\n  {}\n]\n", a2.join(",\n  ")).unwrap();
+    s.push_str("end Compio.Gen.DirBuilder\n");
+    Ok(())
+}
+
+// ---------------------------------------------------------------------------------------------
 
 fn lean_buf(b: &Option<BufParam>) -> String {
     match b {
@@ -1064,6 +1166,7 @@ pub fn generate(repo: &Path) -> Res<String> {
     sources.extend(HELPER_FILES);
     sources.extend(MAPPING_FILES);
     sources.push(OPEN_FILE);
+    sources.push(UTILS_FILE);
     let mut s = header("OpTable", &sources);
     s.push_str("namespace Compio.Gen.OpTable\n\n");
     s.push_str("inductive Driver where\n  | iour | poll\n  deriving DecidableEq, Repr\n\n");
@@ -1117,5 +1220,6 @@ pub fn generate(repo: &Path) -> Res<String> {
     }
     s.push_str("]\n\nend Compio.Gen.OpTable\n\n");
     gen_open_flags(repo, &mut s)?;
+    gen_dir_builder(repo, &mut s)?;
     Ok(s)
 }
